@@ -63,6 +63,16 @@ CHECKS["C12"] = dict(
           "File/image parameters not exercised."),
     design="3/C12", technique="TLA+ spec + TLC-generated edit histories replayed + TLC trace validation")
 
+CHECKS["C10"] = dict(
+    text=("ParContract.tla (Visit(i) contract, triangle multisets), ParScan.tla (worker-pool partition; TLC refutes the pinned helper "
+          "shape, proves the repaired one; generator of every interleaving for n<=8,w<=5 and sampled ones to n=40,w=17), ParField.tla "
+          "(AddFieldParallel job queue / block list with NoRace; pinned shape refuted). TLC-chosen interleavings are imposed on the "
+          "real goroutines by blocking harness callbacks; (index,value) events, outputs, evaluated lattice samples and marched "
+          "triangle multisets are judged line by line by TracePar.tla against the sequential counterpart."),
+    note=("Trusted base: TLC; gate controller (schedules are realised from the actually waiting set); Go race detector as auxiliary "
+          "observer for the data-race clause on the executed schedules; marching compared on the Position attribute."),
+    design="3/C10 and NOTES-c10.md", technique="TLA+ spec + TLC-generated schedules imposed on goroutines + TLC trace validation")
+
 NOT_APPLICABLE = []
 
 
